@@ -44,8 +44,10 @@ type procEnv struct {
 }
 
 type scanState struct {
-	f    *osFile
-	text Str
+	f       *osFile
+	text    Str
+	max     int  // maximum token size (bufio.MaxScanTokenSize unless Buffer was called)
+	tooLong bool // a line did not fit: Scan returns false from then on and Err reports it
 }
 
 func (m *Machine) env() *procEnv {
@@ -491,7 +493,7 @@ func init() {
 		if !ok {
 			m.unsupported("bufio.NewScanner on a reader the model does not know")
 		}
-		m.env().scanners[o] = &scanState{f: m.fileOf(fp)}
+		m.env().scanners[o] = &scanState{f: m.fileOf(fp), max: 64 * 1024}
 		return Ptr{Obj: o}
 	})
 	reg("(*bufio.Scanner).Scan", func(m *Machine, fn *ssa.Function, a []Value) Value {
@@ -505,6 +507,14 @@ func init() {
 		for end < len(f.rdata) && !m.Branch(m.S.Eq(f.rdata[end], nl)) {
 			end++
 		}
+		if sc.tooLong {
+			return m.S.False
+		}
+		if end-f.rpos >= sc.max {
+			// bufio.Scanner: the line (and its terminator) must fit into a buffer of at most max bytes
+			sc.tooLong = true
+			return m.S.False
+		}
 		line := f.rdata[f.rpos:end]
 		if len(line) > 0 && m.Branch(m.S.Eq(line[len(line)-1], m.S.Const(8, '\r'))) {
 			line = line[:len(line)-1]
@@ -516,7 +526,24 @@ func init() {
 	reg("(*bufio.Scanner).Text", func(m *Machine, fn *ssa.Function, a []Value) Value {
 		return m.env().scanners[a[0].(Ptr).Obj].text
 	})
-	reg("(*bufio.Scanner).Err", func(m *Machine, fn *ssa.Function, a []Value) Value { return Iface{} })
+	reg("(*bufio.Scanner).Err", func(m *Machine, fn *ssa.Function, a []Value) Value {
+		if m.env().scanners[a[0].(Ptr).Obj].tooLong {
+			return m.mkError(ConcStr("bufio.Scanner: token too long", m.S), nil)
+		}
+		return Iface{}
+	})
+	reg("(*bufio.Scanner).Buffer", func(m *Machine, fn *ssa.Function, a []Value) Value {
+		max, ok := a[2].(*Term)
+		if !ok || !max.IsConst() {
+			m.unsupported("bufio.Scanner.Buffer with a symbolic maximum")
+		}
+		sc := m.env().scanners[a[0].(Ptr).Obj]
+		sc.max = int(max.Val)
+		if bl, ok := a[1].(Slice); ok && bl.Cap > sc.max {
+			sc.max = bl.Cap // the initial buffer may already be larger than max
+		}
+		return nil
+	})
 
 	// regexp
 	reg("regexp.MustCompile", func(m *Machine, fn *ssa.Function, a []Value) Value {
